@@ -47,6 +47,8 @@ def run(prog, chk):
         "interpolatable OTF masters are compiled with CFFOptimization.NONE whatever the compiler's own option says: no per-master charstring specialisation (R09.9, shared with C12)",
         "per-run accumulators of an interpolatable filter are per master inside the loop over the glyph sets, or reviewed as describing all masters at once (R09.10, shared with C02 / C15)",
     ]
+    chk.decided += ["a composite is interpolated exactly into the masters whose location its components need and it lacks (needLocations - haveLocations): a sparse master never receives glyphs "
+                    "that no component reference ties to its layer (R09.11)"]
     chk.not_decided += ["that cu2qu yields equal segment counts for all masters (fontTools)", "point compatibility of the output itself", "custom filters supplied by the caller"]
     chk.guard(r091, prog, chk)
     chk.guard(r092, prog, chk)
@@ -58,6 +60,7 @@ def run(prog, chk):
     chk.guard(c13.r135, prog, chk, "R09.7")
     chk.guard(c12.masters_force_none, prog, chk, "R09.9")
     chk.guard(check_master_isolation, prog, chk, "R09.10")
+    chk.guard(r0911, prog, chk)
     from .c08 import check_memo_decorators
     chk.guard(lambda prog_, chk_: (check_memo_decorators(prog_, chk_, "R09.8", only_modules=("ufo2ft.instantiator", "ufo2ft.filters", "ufo2ft.preProcessor")), None)[1], prog, chk)
 
@@ -492,7 +495,62 @@ def check_master_isolation(prog, chk, rule):
     chk.minimum(rule, 3)
 
 
+# ----------------------------------------------------------------------------- R09.11
+def r0911(prog, chk):
+    ix = prog.ix
+    en = ix.get_method(BASE_IFILTER, "ensureCompositeDefinedAtComponentLocations", own=True)
+    gname = en.params()[1]
+    sts = [(s_, t, v) for s_, t, v in subscript_stores(en) if T(t.slice) == gname]
+    need(len(sts) == 1, f"cannot interpret {en.short}: insertion of the interpolated glyph")
+    s_, t, v = sts[0]
+
+    def origin_is(e, callee):
+        ok, _ = every_origin(prog, en, e, lambda x, ff: isinstance(x, ast.Call) and A.callee_name(x) == callee and x.args and T(x.args[0]) == gname, allow_const=False)
+        return ok
+
+    def is_missing_set(e, depth=0):
+        """needLocations - haveLocations, directly or through a local"""
+        if isinstance(e, ast.BinOp) and isinstance(e.op, ast.Sub):
+            return origin_is(e.left, "locationsFromComponentGlyphs") and origin_is(e.right, "glyphSourceLocations")
+        if isinstance(e, ast.Call) and isinstance(e.func, ast.Attribute) and e.func.attr == "difference" and len(e.args) == 1:
+            return origin_is(e.func.value, "locationsFromComponentGlyphs") and origin_is(e.args[0], "glyphSourceLocations")
+        if isinstance(e, ast.Name) and depth < 3:
+            ds = prog.reaching(en, e.id, e)
+            return bool(ds) and all(d.kind == "assign" and d.value is not None and d.element()[1] is None and is_missing_set(d.element()[0], depth + 1) for d in ds)
+        return False
+
+    # membership facts about this master's location, read from the guards in force at the insertion
+    ins, outs = [], []
+    for c in conds(prog, en, s_):
+        if c.polarity not in (True, False):
+            continue
+        for lit in ([c.test] if not (isinstance(c.test, ast.BoolOp) and isinstance(c.test.op, ast.And) and c.polarity is True) else c.test.values):
+            p = A.compare_parts(lit)
+            if not p or not isinstance(p[1], (ast.In, ast.NotIn)):
+                continue
+            pos = isinstance(p[1], ast.In) == (c.polarity is True)
+            if not (isinstance(p[0], ast.Call) and A.callee_name(p[0]) == "hashableLocation" and p[0].args and T(p[0].args[0]).endswith(".location")):
+                continue
+            (ins if pos else outs).append(p[2])
+    ok = any(is_missing_set(x) for x in ins) or (any(origin_is(x, "locationsFromComponentGlyphs") for x in ins) and any(origin_is(x, "glyphSourceLocations") for x in outs))
+    # the layer the glyph comes from is the one whose location was tested, and it goes into the glyph set zipped with it
+    src = v.value if isinstance(v, ast.Subscript) and T(v.slice) == gname else None
+    okl = isinstance(src, ast.Name) and any(T(x).startswith(f"self.hashableLocation({src.id}.location)") for x in [A.compare_parts(c.test)[0] for c in conds(prog, en, s_)
+                                                                                                                   if A.compare_parts(c.test)] )
+    chk.ob("R09.11", f"{en.short}|the composite is interpolated only into masters at a location its components need and it lacks", ok and okl, where(en, s_),
+           detail="if hashableLocation(layer.location) in (needLocations - haveLocations): glyphSet[name] = layer[name]",
+           message=f"{en.short}: the interpolated composite is inserted into masters selected by another test than 'location in needLocations - haveLocations' "
+                   f"({[T(x, 40) for x in ins]} / not in {[T(x, 40) for x in outs]}): sparse masters receive glyphs that no component reference ties to their layer, "
+                   f"or a master that needs the glyph is left without it")
+    chk.minimum("R09.11", 1)
+
+
 MUTANTS = [
+    M("composite interpolated into every master that lacks it (seeded C09i)", "ufo2ft/filters/base.py", "BaseIFilter.ensureCompositeDefinedAtComponentLocations",
+      "self.hashableLocation(interpolatedLayer.location) in locationsToAdd", "self.hashableLocation(interpolatedLayer.location) not in haveLocations", rule="R09.11"),
+    M("missing locations written as need-and-not-have", "ufo2ft/filters/base.py", "BaseIFilter.ensureCompositeDefinedAtComponentLocations",
+      "self.hashableLocation(interpolatedLayer.location) in locationsToAdd",
+      "self.hashableLocation(interpolatedLayer.location) in needLocations and self.hashableLocation(interpolatedLayer.location) not in haveLocations", kind="equiv"),
     M("mixed glyphs judged on the first master that has them (seeded C09g)", "ufo2ft/preProcessor.py", "TTFInterpolatablePreProcessor.process",
       "{gname for glyphSet in self.glyphSets for gname, glyph in glyphSet.items() if len(glyph) > 0 and glyph.components}",
       "{gname for gname, glyph in ChainMap(*self.glyphSets).items() if len(glyph) > 0 and glyph.components}", rule="R09.1"),
